@@ -21,6 +21,8 @@ pub struct Inst {
     pub key: String,
     pub shape: Arc<Shape>,
     pub cfg: Cfg,
+    /// large instance: thread counts in submission order only (no per-region deviations)
+    pub light: bool,
 }
 
 fn big_shape(n: usize, aux: bool, seed: u64) -> Arc<Shape> {
@@ -28,7 +30,8 @@ fn big_shape(n: usize, aux: bool, seed: u64) -> Arc<Shape> {
         name: format!("c06/n{n}/aux{}", aux as u8),
         n,
         cols: vec![Rule::Pow { d: 2, k: 1 }, Rule::Mul { p: 0 }, Rule::Reset { d: 1, p: 1, v: 9 }],
-        periodic: vec![Periodic { values: vec![3, 5, 7, 11] }, Periodic { values: vec![1, 1, 1, 0, 1, 1, 1, 1] }],
+        // the last column (cycle n/2, longer than any parallel fragment) is the one the auxiliary rule reads
+        periodic: vec![Periodic { values: vec![3, 5, 7, 11] }, Periodic { values: vec![1, 1, 1, 0, 1, 1, 1, 1] }, Periodic { values: (0..n as u64 / 2).map(|i| i * i + 1).collect() }],
         aux: if aux { Some((2, 2)) } else { None },
         exemptions: if aux { 2 } else { 1 },
         asserts: vec![ASpec::Single { col: 0, step: 0 }, ASpec::Periodic { col: 2, first: 4, stride: 8 }, ASpec::Sequence { col: 1, first: 1, stride: n / 4 }],
@@ -50,11 +53,15 @@ pub fn instances(thorough: bool) -> Vec<Inst> {
         c.parts = parts.0;
         c.rate = parts.1;
         let s = big_shape(n, aux, 1);
-        v.push(Inst { key: format!("{}@{}", s.name, c.short()), shape: s, cfg: c });
+        // constraint evaluation in fragments starts at 8192 rows: those instances run the thread-count sweep only
+        let light = aux && n >= 4096;
+        v.push(Inst { key: format!("{}@{}", s.name, c.short()), shape: s, cfg: c, light });
     };
     // straddle the thresholds: FFT / segment 1024, Merkle 1024 leaves, batch_iter_mut 1024*T, transpose 1024
     add(1024, false, Fid::F64, Hid::Blake3_256, 2, 1, 16, 3, (1, 1));
     add(512, true, Fid::F64, Hid::Blake3_256, 8, 2, 12, 0, (2, 4));
+    // auxiliary constraints evaluated in fragments (constraint evaluation domain 8192)
+    add(4096, true, Fid::F64, Hid::Blake3_256, 2, 1, 8, 0, (1, 1));
     if thorough {
         add(256, false, Fid::F64, Hid::Blake3_256, 4, 1, 8, 0, (1, 1)); // everything below the thresholds
         add(2048, true, Fid::F128, Hid::Sha3_256, 2, 2, 20, 2, (1, 1));
@@ -380,7 +387,8 @@ pub fn run(args: &Args) {
                 }
                 // large instances: full alternative sets only for the smaller ones
                 let level = if thorough && i.shape.n <= 1024 { 1 } else { 0 };
-                let st = sched::explore(i, want, &ts_all, &ts_dev, level, thorough && i.shape.n <= 512, &mut viol);
+                let (ta, td): (Vec<usize>, Vec<usize>) = if i.light { (vec![1, 2, 3, 16], vec![]) } else { (ts_all.clone(), ts_dev.clone()) };
+                let st = sched::explore(i, want, &ta, &td, level, thorough && i.shape.n <= 512, &mut viol);
                 schedules += st.schedules;
                 nontrivial += st.nontrivial;
                 task_runs += st.task_runs;
